@@ -197,7 +197,8 @@ pub(crate) fn add_regex_priv_match<W, R, T>(
             let mut search_iter = rt.limits.search_iter();
             let base_inp = Input::new(s1.as_str()).anchored(Anchored::Yes);
             let (offset, len) = 'o_l: {
-                for offset in i2..=i3 {
+                // a match cannot start past the end of the haystack (an out-of-range span panics)
+                for offset in i2..=i3.min(s1.as_str().len()) {
                     let inp = base_inp.clone().range(offset..);
                     if let Some(i) = xraise!(match_at(
                         &r0.dfa,
